@@ -163,13 +163,24 @@ fn frames<T: Tier>(rep: &mut Report) {
 /// float tiers: integer grids (irrational lengths), non-parallel pairs only
 fn grid3<T: Tier + Dom<M = Sh>>(rep: &mut Report) {
     let r: i64 = rep.pick(1, 2);
+    grid3_at::<T>(rep, "grid3", r, (0, 0));
+    // long and short inputs: the squares of the lengths are representable (that is what normalising d and up needs),
+    // their fourth powers are not - the result must not depend on the order in which the constructor normalises
+    let k = if T::NAME == "F" { 35 } else { 300 };
+    for (nm, sc) in [("grid3/long", (k, k)), ("grid3/short", (-k, -k)), ("grid3/long-dir-short-up", (k, -k)), ("grid3/short-dir-long-up", (-k, k))] {
+        grid3_at::<T>(rep, nm, 1, sc);
+    }
+}
+fn grid3_at<T: Tier + Dom<M = Sh>>(rep: &mut Report, name: &str, r: i64, sc: (i32, i32)) {
     let side = (2 * r + 1) as usize;
     let dims = vec![side; 6];
-    let eyes: Vec<[T; 3]> = (0..2).map(|v| vec_from_r::<T, 3>(&alphabet::generic(3, v))).collect();
+    // scaled systems: eye at the origin, so that target = eye + d carries d exactly whatever its length
+    let eyes: Vec<[T; 3]> = if sc == (0, 0) { (0..2).map(|v| vec_from_r::<T, 3>(&alphabet::generic(3, v))).collect() } else { vec![[T::zero(); 3]] };
+    let (sd, su): (T, T) = (num_traits::cast::<f64, T>(2f64.powi(sc.0)).unwrap(), num_traits::cast::<f64, T>(2f64.powi(sc.1)).unwrap());
     rep.cases(
-        "grid3",
+        name,
         T::NAME,
-        &format!("all (dir, up) over {{-{r}..{r}}}^6 with dir x up != 0, 2 eyes"),
+        &format!("all (dir, up) over {{-{r}..{r}}}^6 with dir x up != 0, dir scaled by 2^{}, up by 2^{}, {} eye(s)", sc.0, sc.1, eyes.len()),
         alphabet::product_len(&dims) * eyes.len(),
         Guard::states(200).distinct(100),
         |i, ctx| {
@@ -178,8 +189,8 @@ fn grid3<T: Tier + Dom<M = Sh>>(rep: &mut Report) {
             let di: [i64; 3] = std::array::from_fn(|j| d[j] as i64 - r);
             let ui: [i64; 3] = std::array::from_fn(|j| d[3 + j] as i64 - r);
             let cr = [di[1] * ui[2] - di[2] * ui[1], di[2] * ui[0] - di[0] * ui[2], di[0] * ui[1] - di[1] * ui[0]];
-            let dir: [T; 3] = std::array::from_fn(|j| T::int(di[j]));
-            let up: [T; 3] = std::array::from_fn(|j| T::int(ui[j]));
+            let dir: [T; 3] = std::array::from_fn(|j| T::int(di[j]) * sd);
+            let up: [T; 3] = std::array::from_fn(|j| T::int(ui[j]) * su);
             let eye = eyes[i / n1];
             ctx.describe(|| format!("eye={:?} dir={:?} up={:?}", eye, dir, up));
             ctx.out(&(d.clone(), i / n1));
